@@ -32,6 +32,7 @@ class Ctl(object):
         self.rule = None
         self.log = []
         self.salt = 0        # varies the class of the exception a vetoing hook raises (set per operation)
+        self.nested = False  # inside a structural call made by a hook
 
     def register(self, node):
         self.ids[id(node)] = len(self.nodes)
@@ -63,6 +64,16 @@ class Ctl(object):
         r = self.rule
         if i in r.get("at", ()) or (kind in r.get("kinds", ()) and (r.get("nodes") is None or lab in r["nodes"])):
             raise ABORT_CLASSES[(i + self.salt) % len(ABORT_CLASSES)](i, kind, lab)
+        re = r.get("reenter")
+        if re and re["at"] == i and not self.nested:
+            # a re-entrant hook: it detaches ANOTHER node (never the one the hook belongs to) while the call is in progress
+            target = self.nodes[re["y"]]
+            if target is not node and target.parent is not None:
+                self.nested = True
+                try:
+                    target.parent = None
+                finally:
+                    self.nested = False
 
 
 def make_classes(ctl):
